@@ -16,7 +16,8 @@ while IFS='|' read -r name patch rev prop pkgs expect; do
   if ! python3 tools/mkoverlay.py "$patch" /repo $flag > "$tmp/ov.json" 2>"$tmp/err"; then
     echo "selftest SKIP $name: patch does not apply ($(head -c 200 $tmp/err))"; fail=1; continue
   fi
-  if out=$(bin/govc verify -prop "$prop" -pkgs "$pkgs" -overlay "$tmp/ov.json" -expect-fail "$expect" 2>&1); then
+  pk=(-pkgs "$pkgs"); [ "$pkgs" = "-" ] && pk=()
+  if out=$(bin/govc verify -prop "$prop" "${pk[@]}" -overlay "$tmp/ov.json" -expect-fail "$expect" 2>&1); then
     echo "ok   $name: $(echo "$out" | tail -1)"
   else
     echo "FAIL $name: $(echo "$out" | tail -2)"; fail=1
